@@ -97,7 +97,7 @@ def judge(chk, work, good, bycase, stat, chunks, rounds=6):
         # the targeted schedules come first; a flood of rejections on one transport must not hide the other
         mine = [s for s in good if s[0].get("tr") == tr]
         mine.sort(key=lambda s: 0 if s[0].get("case", "").startswith(("dw-", "rel-", "lostcommit-", "rw-", "rwgen-")) else 1)
-        # every rejected case costs one more TLC run of its chunk: the quick tier stops after 3 per chunk (one replay
+        # every rejected case costs one more TLC run of its chunk: the quick tier stops after 2 per chunk (one replay
         # per class is reported anyway; what is left unchecked is listed as inconclusive)
         boxes[tr] = V.fold_traces(work, "OneCopyObs", "OneCopyObs.cfg", mine, timeout=2400, chunks=chunks, max_rounds=rounds)
     ts = [threading.Thread(target=one, args=(tr,)) for tr in sorted({s[0].get("tr") for s in good})]
@@ -383,7 +383,7 @@ def run(chk):
     # ------------------------------------------------------------------ 4. P-level verdicts (TLC folds the recorded events)
     good = [s for s in segs if not any(ln.get("e") == "hang" for ln in s)]
     mths = start_mlevel(chk, specsrc, good)
-    judge(chk, work, good, bycase, stat, 2 if quick else 5, 3 if quick else 6)
+    judge(chk, work, good, bycase, stat, 2 if quick else 5, 2 if quick else 6)
     # ------------------------------------------------------------------ 5. M-level conformance (drift only)
     [t.join() for t in mths[0]]
     conform = mths[1]
